@@ -159,3 +159,14 @@ add("C30", "inverse gamma mean formula", SPDP, "self._mean = self._q / (self._al
 add("C30", "gamma alpha from mean and var", SPDP, "            alpha = mean / theta", "            alpha = mean * theta", "R30.2")
 add("C30", "classic lognormal moments", "nifty/cl/utilities.py", "logmean = np.log(mean) - logsigma**2 / 2", "logmean = np.log(mean) + logsigma**2 / 2", "R30.2")
 VARIANTS = V
+
+add("C36", "re chi-square divided by size for complex input", "nifty/re/minisanity.py", "    ndof = inp.size if jnp.isrealobj(inp) else 2 * inp.size", "    ndof = inp.size", "R36.1")
+add("C36", "re chi-square without conjugation", "nifty/re/minisanity.py", "rchisq = jnp.vdot(inp, inp).real / ndof", "rchisq = jnp.dot(inp, inp).real / ndof", "R36.1")
+add("C36", "re reports std of the wrong statistic", "nifty/re/minisanity.py", "rx = jnp.array([jnp.mean(rx), jnp.std(rx)])", "rx = jnp.array([jnp.mean(rx), jnp.std(m)])", "R36.1")
+add("C36", "classic chi-square divided by full size", "nifty/cl/extra.py", "                    xredchisq[ii][kk].add(tmp / lsize)", "                    xredchisq[ii][kk].add(tmp / sskk.size)", "R36.2")
+add("C36", "classic zero entries not ignored", "nifty/cl/extra.py", "lsize = sskk.size - n_isnan - n_iszero", "lsize = sskk.size - n_isnan", "R36.2")
+add("C36", "classic mean accumulates squares", "nifty/cl/extra.py", "if (tmp:=np.nansum(sskk)) == 0 and lsize == 0:", "if (tmp:=np.nansum(sskk**2)) == 0 and lsize == 0:", "R36.2")
+add("C36", "classic ignored count drops zeros", "nifty/cl/extra.py", "xnigndof[ii][kk] = n_isnan + n_iszero", "xnigndof[ii][kk] = n_isnan", "R36.2")
+add("C36", "classic slots swapped in the result", "nifty/cl/extra.py", "                'data_residuals': xredchisq[0],\n                'latent_variables': xredchisq[1]",
+    "                'data_residuals': xredchisq[1],\n                'latent_variables': xredchisq[0]", "R36.2")
+VARIANTS = V
